@@ -296,7 +296,8 @@ func (b *bb) scenarioJoin() {
 
 	// (1) deterministic: no timeout (loopUntimeouted) and a timeout far longer than the run
 	// (loop with the ticker): the unique greedy batching, compared with the model
-	for _, to := range []time.Duration{0, time.Hour} {
+	// ... and a negative timeout, which means "no timeout" just as zero does
+	for _, to := range []time.Duration{0, time.Hour, -time.Second} {
 		before := b.fails()
 		outs, _, _, ok := b.runBatch(kind, ver, size, nocopy, to, 25, inCap, inputs, nil)
 		var data [][]int
@@ -690,7 +691,12 @@ func (b *bb) scenarioJoin() {
 // (instead of after it) flushes the short slice about d too early.
 func (b *bb) backpressure() {
 	before := b.fails()
-	mode := []string{"join-v2", "unite-forward", "unite-accumulate", "join-v1"}[b.cycle("backpressure", 4)]
+	mode := []string{"join-v2", "unite-forward", "unite-accumulate", "join-v1", "join-v2-tb", "unite-accumulate-tb"}[b.cycle("backpressure", 6)]
+	// "-tb": it is a PARTIAL slice, flushed by the timeout, whose write blocks (the output buffer
+	// is full of full slices, the consumer wakes up only after 2.5 Timeouts); the next partial
+	// slice arrives right after the consumer has made room
+	tb := strings.HasSuffix(mode, "-tb")
+	mode = strings.TrimSuffix(mode, "-tb")
 	const size = 3
 	tmo := 60 * time.Millisecond
 	if mode == "join-v1" {
@@ -751,6 +757,11 @@ func (b *bb) backpressure() {
 	c := cap(output)
 	full := c + 1
 	d := tmo / 2
+	if tb {
+		full = c
+		d = tmo * 5 / 2
+	}
+	started := time.Now()
 	prodDone := make(chan struct{})
 	go func() {
 		defer close(prodDone)
@@ -760,6 +771,13 @@ func (b *bb) backpressure() {
 			next += size
 		}
 		write([]int{next}) // the short slice
+		if tb {
+			// ... which times out while the output is full; the next short slice follows as soon
+			// as the consumer has started to read
+			time.Sleep(time.Until(started.Add(d + 5*time.Millisecond)))
+			next++
+			write([]int{next})
+		}
 		time.Sleep(tmo + tmo/4 + 200*time.Millisecond)
 		write([]int{next + 1}) // the final slice
 		closeIn()
@@ -795,6 +813,9 @@ loop:
 				mode, o.data, got, j-1-c, outs[j-1].data, c, tmo, d)
 		}
 	}
+	if tb {
+		mode += "-tb"
+	}
 	b.leakProbe("termination of " + mode + " under backpressure")
 	b.note("join", "backpressure "+mode, before)
 }
@@ -803,7 +824,7 @@ func (b *bb) scenarioLimit() {
 	before := b.fails()
 	r := b.r
 	q := uint64(1 + r.Intn(7))
-	pattern := []string{"stall-burst", "prefilled-short", "small", "trickle", "prefilled"}[b.cycle("limit", 5)]
+	pattern := []string{"stall-burst", "prefilled-short", "small", "trickle", "prefilled", "busy-consumer"}[b.cycle("limit", 6)]
 	short := pattern == "prefilled-short"
 	if short {
 		pattern = "prefilled"
@@ -819,6 +840,13 @@ func (b *bb) scenarioLimit() {
 		// exceed what the window bound allows on the receiving side, 2*Quantity + 3)
 		q = uint64(4 + r.Intn(4))
 		n = 10 * int(q)
+		inCap = 0
+	case "busy-consumer":
+		// data always available on an unbuffered input, a consumer that is far faster than the
+		// limit but spends a couple of milliseconds on every element, so that it is usually not
+		// waiting in the receive when the discipline writes: the output buffer (one slot) is
+		// full at the end of a portion - which says nothing about the rate
+		n = 6 * int(q)
 		inCap = 0
 	case "small":
 		// fewer than Quantity elements: no pause at all, however long the interval is
@@ -890,6 +918,9 @@ loop:
 			}
 			got = append(got, x)
 			recv = append(recv, time.Now())
+			if pattern == "busy-consumer" {
+				time.Sleep(2 * time.Millisecond)
+			}
 		case <-deadline:
 			b.fail("C12 limit: the output was not closed within 30s")
 			break loop
